@@ -212,7 +212,14 @@ pub fn run(ctx: &Ctx) -> i32 {
     let nq = queries.len();
     // more alphabets, each exhaustive for q, k <= 3: scalars at the encoding-length boundaries and scalars whose last
     // (or only) continuation byte is the extreme 0x80 / 0xBF
-    let more: [[char; 8]; 2] = [['\u{7f}', '\u{80}', 'ÿ', '\u{7ff}', '\u{800}', '☿', '\u{ffff}', '😿'], ['a', '\u{81}', '\u{bf}', 'é', '\u{10000}', '\u{10ffff}', '\u{e000}', '\u{d7ff}']];
+    // ... and two alphabets of "byte siblings": scalars whose encodings differ ONLY in the lead byte (C2/C3/C4/D1 A9; E1/E2/E3 81 A9;
+    // EB/EC/ED 81 A9; F0/F1/F2 90 81 A9), adjacent lead bytes included - what the UTF-8 automaton shares between characters
+    let more: [[char; 8]; 4] = [
+        ['\u{7f}', '\u{80}', 'ÿ', '\u{7ff}', '\u{800}', '☿', '\u{ffff}', '😿'],
+        ['a', '\u{81}', '\u{bf}', 'é', '\u{10000}', '\u{10ffff}', '\u{e000}', '\u{d7ff}'],
+        ['©', 'é', 'ĩ', '\u{469}', '\u{1069}', '\u{2069}', '\u{3069}', 'a'],
+        ['\u{b069}', '\u{c069}', '\u{d069}', '\u{10069}', '\u{50069}', '\u{90069}', '\u{e8}', '\u{2068}'],
+    ];
     let more_sets: Vec<(Vec<String>, Set<Vec<u8>>)> = more
         .iter()
         .map(|al| {
@@ -294,6 +301,46 @@ pub fn run(ctx: &Ctx) -> i32 {
                 }
                 Ok(Err(_)) => ev.count("build:huge-automaton-TooManyStates"),
                 Err(p) => ev.violate("lev-panic", format!("new_with_limit(72-char query, 3, 1000000) panicked: {}", p), J::Null),
+            }
+        }
+        // LARGE distances (around 255/256 and 511/512, where a narrow cell type would saturate or wrap) with tiny queries, only
+        // reachable through new_with_limit; keys just inside and just outside the distance, single- and multi-byte
+        {
+            let mut idx = 0usize;
+            for q in ["", "a", "é", "ab"].iter() {
+                for &d in [200u32, 254, 255, 256, 257, 300, 511, 512, 600].iter() {
+                    idx += 1;
+                    if idx % n != shard || (q.chars().count() == 2 && d > 300) {
+                        continue;
+                    }
+                    ev.fps.insert(crate::rng::fnv_u64(crate::rng::fnv(q.as_bytes()), 0xb16_d000 + d as u64));
+                    match guard(|| Levenshtein::new_with_limit(q, d, 2_000_000)) {
+                        Ok(Ok(lev)) => {
+                            ev.count("build:large-distance-Ok");
+                            let ql = q.chars().count();
+                            let mut bad = 0;
+                            for &kl in [0usize, 1, d as usize - 1, d as usize, d as usize + 1, d as usize + ql, d as usize + ql + 1, d as usize + ql + 2, 2 * d as usize + 5].iter() {
+                                for fill in ["x", "é", "a", "☃"].iter() {
+                                    for tail in ["", q].iter() {
+                                        let k: String = format!("{}{}", fill.repeat(kl), tail);
+                                        let dist = levref::distance(q, &k);
+                                        let want = dist <= d as usize;
+                                        let got = run_lev(&lev, k.as_bytes());
+                                        ev.eval(None);
+                                        ev.distinct_extra += 1;
+                                        ev.count(if want { "large-distance:within" } else { "large-distance:beyond" });
+                                        if got != want && bad < 2 {
+                                            bad += 1;
+                                            ev.violate("lev-mismatch", format!("new_with_limit({:?}, {}, 2000000) {} a key of {} x {:?} + {:?} whose edit distance is {}", q, d, if got { "accepts" } else { "rejects" }, kl, fill, tail, dist), J::obj(vec![("query", J::s(*q)), ("distance", J::U(d as u64)), ("key_chars", J::U(kl as u64))]));
+                                        }
+                                    }
+                                }
+                            }
+                        }
+                        Ok(Err(_)) => ev.count("build:large-distance-TooManyStates"),
+                        Err(p) => ev.violate("lev-panic", format!("new_with_limit({:?}, {}, 2000000) panicked: {}", q, d, p), J::Null),
+                    }
+                }
             }
         }
         // queries of EVERY length 1..=40 (and 47, 48, 63, 64, 65) at d = 1, 2, 3 (and d = 4..6 for lengths <= 21; at most 60000 states - larger constructions count as TooManyStates): a length
